@@ -1,3 +1,5 @@
+import F3.Proofs.SkelTieValidate
+import F3.Proofs.SkelTiePower
 import F3.Proofs.ValidatorGen2
 import F3.Proofs.ValidatorCached
 import F3.Proofs.ValidatorSound
@@ -309,4 +311,24 @@ example : expectation CONVERGE 0 COMMIT = some (maxU64, false) ∧ expectation C
     expectation DECIDE 0 PREPARE = none := by decide
 
 end Regenerated2
+end F3.Props.C05
+
+namespace F3.Props.C05
+section Skeletons
+
+/-- **The Go functions this property's models mirror still have the statement structure the models were written
+against**: each regenerated skeleton (pre-order list of statement kinds, `tools/go2lean/skel.go`) equals the pinned
+expectation of `F3/Proofs/SkelTie*.lean`. An added early return, cap, loop or dropped branch in one of these functions
+breaks this obligation even when no regenerated *expression* changes. -/
+theorem code_structure_as_modelled :
+    F3.Gen.SkelValidate.skelValidateJustification = F3.SkelTie.SkelValidate.skelValidateJustificationExpected ∧
+    F3.Gen.SkelValidate.skelFullyValidate = F3.SkelTie.SkelValidate.skelFullyValidateExpected ∧
+    F3.Gen.SkelValidate.skelSuppEq = F3.SkelTie.SkelValidate.skelSuppEqExpected ∧
+    F3.Gen.SkelValidate.skelInferJustValue = F3.SkelTie.SkelValidate.skelInferJustValueExpected ∧
+    F3.Gen.SkelPower.skelScalePower = F3.SkelTie.SkelPower.skelScalePowerExpected ∧
+    F3.Gen.SkelPower.skelPowerTableCopy = F3.SkelTie.SkelPower.skelPowerTableCopyExpected ∧
+    F3.Gen.SkelPower.skelRescale = F3.SkelTie.SkelPower.skelRescaleExpected :=
+  ⟨F3.SkelTie.SkelValidate.skelValidateJustification_expected, F3.SkelTie.SkelValidate.skelFullyValidate_expected, F3.SkelTie.SkelValidate.skelSuppEq_expected, F3.SkelTie.SkelValidate.skelInferJustValue_expected, F3.SkelTie.SkelPower.skelScalePower_expected, F3.SkelTie.SkelPower.skelPowerTableCopy_expected, F3.SkelTie.SkelPower.skelRescale_expected⟩
+
+end Skeletons
 end F3.Props.C05
